@@ -453,10 +453,10 @@ func (fsdb *FsDb) importCertConfigFile(certContent config.CertificateContent, co
 		hashIx := bytes.Index(certfiContent, []byte(hashPrefix))
 
 		if hashIx != -1 {
+			//hashEnd is relative to hashIx
 			hashEnd := bytes.IndexRune(certfiContent[hashIx:], '\n')
-			hashIx += len(hashPrefix)
 			if hashEnd != -1 {
-				hashs := string(certfiContent[hashIx:hashEnd])
+				hashs := string(certfiContent[hashIx+len(hashPrefix) : hashIx+hashEnd])
 				hashBytes, err := base64.StdEncoding.DecodeString(hashs)
 				if err != nil {
 					logging.Warningf("error decoding config hash for %v: %v", certFile, err)
